@@ -488,10 +488,20 @@ Definition run_case (g : graph) (mode gid : N) : N * list cb :=
   | Painted r s => (class_of r, s_out s)
   end.
 
+(* a client that implements only the required methods: fill_glyph is the trait's default (expanded), and
+   pop_layer_with_mode's default forwards to pop_layer, which carries no mode (recorded as 255) *)
+Definition strip_pop (c : cb) : cb := match c with PopLayer _ => PopLayer 255 | _ => c end.
+
+(* client mode >= 10: the same client answers (mode - 10) given by a painter relying on the default fill_glyph.
+   ([oracle_of] looks only at the number of Cached events seen so far, which the expansion preserves.) *)
 Definition check_sub (g : graph) (c : N * N * (N * list cb)) : bool :=
   let '(mode, gid, (cls, cbs)) := c in
-  let '(mcls, mcbs) := run_case g mode gid in
-  N.eqb cls mcls && cbs_eqb cbs mcbs.
+  if N.leb 10 mode then
+    let '(mcls, mcbs) := run_case g (mode - 10) gid in
+    N.eqb cls mcls && cbs_eqb cbs (map strip_pop (expand mcbs))
+  else
+    let '(mcls, mcbs) := run_case g mode gid in
+    N.eqb cls mcls && cbs_eqb cbs mcbs.
 
 (* one graph, several (client mode, glyph id, (class, callbacks)) observations *)
 Definition check_case (c : graph * list (N * N * (N * list cb))) : bool :=
